@@ -3,6 +3,7 @@
 package main
 
 import (
+	"time"
 	"context"
 	"database/sql"
 	"errors"
@@ -69,6 +70,26 @@ func (o *observer) holdWrite() (func(), error) {
 		_, _ = conn.ExecContext(ctx, "ROLLBACK")
 		_ = conn.Close()
 	}, nil
+}
+
+// quiesce returns once no connection holds any lock on the database file (an exclusive transaction can be opened):
+// a transaction that database/sql rolls back on its own after a deadline releases its locks a moment after the
+// store has already answered
+func (o *observer) quiesce() {
+	ctx := context.Background()
+	conn, err := o.db.Conn(ctx)
+	if err != nil {
+		return
+	}
+	defer conn.Close()
+	deadline := time.Now().Add(5 * time.Second)
+	for time.Now().Before(deadline) {
+		if _, err := conn.ExecContext(ctx, "BEGIN EXCLUSIVE"); err == nil {
+			_, _ = conn.ExecContext(ctx, "ROLLBACK")
+			return
+		}
+		time.Sleep(5 * time.Millisecond)
+	}
 }
 
 type snapshot struct {
